@@ -117,7 +117,11 @@ func (s *Server) handleConnection(ctx context.Context, conn net.Conn) {
 		return
 	}
 
-	s.stats.incrementConnections()
+	if err := s.stats.incrementConnections(); err != nil {
+		dlog.Server.Error(err)
+		sshConn.Close()
+		return
+	}
 	// The channel of new channels is closed once the connection has ended.
 	defer s.stats.decrementConnections()
 	go gossh.DiscardRequests(reqs)
